@@ -3,9 +3,10 @@
 cd /verif
 for d in /verif/seeded/*/; do
   n=$(basename $d); prop=$(python3 -c "import json;print(json.load(open('$d/meta.json'))['breaks_property'])")
-  if ! git -C /repo apply --check $d/patch.diff 2>/dev/null; then echo "$n $prop NOAPPLY"; continue; fi
-  git -C /repo apply $d/patch.diff
-  out=$(./check $prop --tier quick 2>&1); rc=$?
-  git -C /repo checkout -- .
+  T=/tmp/seed-$n; rm -rf $T; mkdir -p $T; cp -r /repo/src $T/src
+  if ! (cd $T && patch -p1 -s --dry-run < $d/patch.diff >/dev/null 2>&1); then echo "$n $prop NOAPPLY"; rm -rf $T; continue; fi
+  (cd $T && patch -p1 -s < $d/patch.diff)
+  out=$(MQTT_SRC=$T/src ./check $prop --tier quick 2>&1); rc=$?
+  rm -rf $T
   echo "$n $prop rc=$rc $(echo "$out" | grep -m1 '^trace\|^record' | cut -c1-120)"
 done
